@@ -352,7 +352,8 @@ def serialise_roles_inputs(kernel0, rec, kernel):
                 if isinstance(o, MemoryOperand):
                     memkey(o)
 
-    def ser(o):
+    def ser(o, real=None):
+        """o: operand of the untouched parse; real: the same operand in the analysed kernel (identity for the ==-class)"""
         if isinstance(o, RegisterOperand):
             return ("reg", {"name": str(o.name), "prefix": o.prefix or "", "pidx": False})
         if isinstance(o, FlagOperand):
@@ -363,14 +364,17 @@ def serialise_roles_inputs(kernel0, rec, kernel):
             return ("mem", {"base": ser(o.base)[1] if isinstance(o.base, RegisterOperand) else None,
                             "index": ser(o.index)[1] if isinstance(o.index, RegisterOperand) else None,
                             "scale": int(o.scale), "off": so, "pre": bool(o.pre_indexed), "post": bool(o.post_indexed),
-                            "key": memkey(o)})
+                            "key": memkey(real if real is not None else o)})
         return ("other", None)
 
     def flag(op, name):
         return bool(getattr(op, name)) if isinstance(op, Operand) else bool(op[name])
     out = []
-    for i0, e in zip(kernel0, rec):
+    for i0, e, ireal in zip(kernel0, rec, kernel):
         ops = list(i0.operands or [])
+        reals = list(ireal.operands or [])
+        if len(reals) != len(ops):
+            reals = [None] * len(ops)
         keys = []
         for i, o in enumerate(ops):
             k = i
@@ -384,7 +388,7 @@ def serialise_roles_inputs(kernel0, rec, kernel):
             entry = {"roles": [(flag(o, "source"), flag(o, "destination")) for o in e.operands],
                      "hidden": [(ser(h), (flag(h, "source"), flag(h, "destination"))) for h in (e.hidden_operands or [])],
                      "idiom": bool(e.breaks_dependency_on_equal_operands)}
-        out.append({"ops": [(ser(o), k) for o, k in zip(ops, keys)], "entry": entry,
+        out.append({"ops": [(ser(o, r), k) for o, k, r in zip(ops, keys, reals)], "entry": entry,
                     "instr": i0.mnemonic is not None and i0.operands is not None})
     return out
 
